@@ -12,3 +12,5 @@ for id in "$@"; do
   echo "$(basename $d) -> $id: exit=$code $(echo "$out" | grep -m1 'violation class' ) $(echo "$out" | grep -m1 'harness error')"
 done
 git checkout -q -- .
+# never leave a simulator binary built from the modified tree behind
+/verif/check setup >/dev/null 2>&1
